@@ -14,6 +14,7 @@ import (
 	"github.com/zitadel/logging"
 
 	"verif/harness/internal/attrquery"
+	"verif/harness/internal/c10"
 	"verif/harness/internal/c16"
 	"verif/harness/internal/c17"
 	"verif/harness/internal/c20"
@@ -41,7 +42,9 @@ func main() {
 	stdlog.SetOutput(io.Discard)
 	var err error
 	switch prop {
-	case "C01", "C03", "C10":
+	case "C10":
+		err = c10.Run(*out, *tier, *seed)
+	case "C01", "C03":
 		err = callback.Run(prop, *out, *tier, *seed)
 	case "C12":
 		err = attrquery.Run(*out, *tier, *seed)
